@@ -4,7 +4,9 @@
 
    Case line (kind 7), W = writing endpoint, B = reading endpoint:
      7 cfg NS (sid nw wlen_1..wlen_nw endact wok)*NS NE (tag a b c d e)*NE
-       cfg    : 0 = W is the yamux client (odd ids), 1 = W is the server (even ids)
+       cfg    : 0 = W is the yamux client (odd ids), 1 = W is the server (even ids);
+                +10 = the harness gave the session up (it failed or hung: never on the unchanged
+                tree): the events recorded so far, judged by the per-Read clauses of the monitor only
        stream : yamux id, the sizes of W's Write calls, what W did afterwards
                 (0 nothing, 1 CloseWrite, 2 Reset), wok = 1 iff every Write returned (len, nil)
        events, in the order of the harness' global log:
@@ -273,6 +275,7 @@ Definition conform7 (l : list Z) : list Z :=
   match decode7 l with
   | None => [ERR_MALFORMED; 7]
   | Some c =>
+      if 10 <=? m_cfg c then [] else     (* aborted session: only the monitor applies *)
       match walk 0 rp0 (m_evs c) with
       | [] => first_nonempty (map (check_sender (m_evs c)) (m_streams c))
       | d => d
@@ -284,29 +287,30 @@ Definition conform7 (l : list Z) : list Z :=
    nothing beyond what was written; EOF only if the writer half-closed and only
    once everything it wrote was delivered; an error only if the writer reset the
    stream; at the end (all frames were handed over and the reader drained the
-   stream) everything written was delivered unless the stream was reset, a
-   half-closed stream reached EOF, and a reset stream reported an error *)
-Fixpoint mon7 (total endact delivered : Z) (saw_eof saw_err : bool) (tr : list ev) : bool :=
+   stream; [complete]) everything written was delivered unless the stream was
+   reset, a half-closed stream reached EOF, and a reset stream reported an error *)
+Fixpoint mon7 (complete : bool) (total endact delivered : Z) (saw_eof saw_err : bool) (tr : list ev) : bool :=
   match tr with
   | [] =>
-      (if endact =? 2 then saw_err else (delivered =? total)) &&
-      (if endact =? 1 then saw_eof else true)
+      negb complete ||
+      ((if endact =? 2 then saw_err else (delivered =? total)) &&
+       (if endact =? 1 then saw_eof else true))
   | e :: r =>
       let blen := e_b e in let res := e_c e in let n := e_d e in
       if res =? 0 then
         (e_e e =? 1) && (0 <=? n) && (n <=? blen) && (delivered + n <=? total) &&
-        mon7 total endact (delivered + n) saw_eof saw_err r
+        mon7 complete total endact (delivered + n) saw_eof saw_err r
       else if res =? 1 then
-        (n =? 0) && (endact =? 1) && (delivered =? total) && mon7 total endact delivered true saw_err r
+        (n =? 0) && (endact =? 1) && (delivered =? total) && mon7 complete total endact delivered true saw_err r
       else
-        (n =? 0) && (endact =? 2) && mon7 total endact delivered saw_eof true r
+        (n =? 0) && (endact =? 2) && mon7 complete total endact delivered saw_eof true r
   end.
 
 Definition reads_of (sid : Z) (evs : list ev) : list ev :=
   filter (fun e => (e_tag e =? 4) && (e_a e =? sid)) evs.
 
-Definition monitor_stream (evs : list ev) (sd : sdesc) : list Z :=
-  if mon7 (zsum (sd_wlens sd)) (sd_end sd) 0 false false (reads_of (sd_sid sd) evs) then []
+Definition monitor_stream (complete : bool) (evs : list ev) (sd : sdesc) : list Z :=
+  if mon7 complete (zsum (sd_wlens sd)) (sd_end sd) 0 false false (reads_of (sd_sid sd) evs) then []
   else [ERR_PROPERTY; 7; sd_sid sd; sd_end sd].
 
 (* reads on a stream that the writer never opened *)
@@ -318,5 +322,5 @@ Definition monitor7 (l : list Z) : list Z :=
   | None => [ERR_MALFORMED; 7]
   | Some c =>
       if existsb (foreign_read (m_streams c)) (m_evs c) then [ERR_PROPERTY; 7; -1; 0]
-      else first_nonempty (map (monitor_stream (m_evs c)) (m_streams c))
+      else first_nonempty (map (monitor_stream (m_cfg c <? 10) (m_evs c)) (m_streams c))
   end.
